@@ -219,3 +219,56 @@ contract(
     notes=['segment contract: the refusal decisions of validate(); the family-mismatch bookkeeping after them is not under contract'],
     canaries=[('self.received_open.hold_time < HoldTime.MIN', 'self.received_open.hold_time <= HoldTime.MIN')],
 )
+
+# ------------------------------------------------------------------------------------------------ RequirePath.setup (C07, C01)
+# RFC 7911 section 4: "send" of one side pairs with "receive" of the other.  The body of the per-family loop is taken as
+# a segment: `send.get(k)` / `receive.get(k)` are the modes the two OPENs carry for the family (any value 0..3), and the
+# values stored in self._send[k] / self._receive[k] are captured through the dictionary write.
+OURS = z3.Int('addpath_ours')
+THEIRS = z3.Int('addpath_theirs')
+
+
+def _mode(sym):
+    def h(it, args, kwargs, fr, node):
+        it.ctx.assume(z3.And(sym >= 0, sym <= 3))
+        it.ctx.inputs.setdefault(str(sym), ('int', sym))
+        return sym
+
+    return h
+
+
+def _store(name):
+    def build(it, pname):
+        def setitem(it2, o, k, v):
+            f = it2.ctx.root_frame if hasattr(it2.ctx, 'root_frame') else None
+            it2.ctx.stored = getattr(it2.ctx, 'stored', {})
+            it2.ctx.stored[name] = v
+            return None
+
+        return VObj(None, {'setitem!': setitem}, pname)
+
+    return custom(build)
+
+
+def _stored(name):
+    return VSpecFn(lambda it: to_z3(truthy(it.ctx, getattr(it.ctx, 'stored', {}).get(name))) if name in getattr(it.ctx, 'stored', {}) else z3.BoolVal(False))
+
+
+from pyvc.interp import truthy  # noqa: E402
+
+contract(
+    NG,
+    'RequirePath.setup#family',
+    props=('C07', 'C01'),
+    segment={'from': 'here_will_send = bool('},  # to the end of the loop body
+    params={'self': obj(None, CANT=const(0), RECEIVE=const(1), SEND=const(2), _send=_store('send'), _receive=_store('receive')), 'k': int_(0, 1 << 24), 'send': obj(None), 'receive': obj(None)},
+    callees={'send.get': _mode(OURS), 'receive.get': _mode(THEIRS)},
+    specfns={'ours': VSpecFn(lambda it: OURS), 'theirs': VSpecFn(lambda it: THEIRS), 'stored_send': _stored('send'), 'stored_receive': _stored('receive')},
+    ensures=[
+        # we send path identifiers for the family iff WE advertised send (bit 2) and THEY advertised receive (bit 1)
+        'stored_send() == ((ours() == 2 or ours() == 3) and (theirs() == 1 or theirs() == 3))',
+        # we accept them iff WE advertised receive and THEY advertised send
+        'stored_receive() == ((ours() == 1 or ours() == 3) and (theirs() == 2 or theirs() == 3))',
+    ],
+    canaries=[('they_will_recv = bool(receive.get(k, self.CANT) & self.RECEIVE)', 'they_will_recv = bool(receive.get(k, self.CANT) & self.SEND)')],
+)
